@@ -2026,6 +2026,69 @@ func (k *scanKeywords) All() []string {
 	return append(append([]string{}, k.Operators...), k.Prefixes...)
 }
 
+// makesOperatorTokens: f builds a scanner token whose role is the operator role.
+func makesOperatorTokens(p *Prog, f *ssa.Function) bool {
+	oc, _ := p.ExpPkg.Types.Scope().Lookup("operatorToken").(*types.Const)
+	if oc == nil {
+		return false
+	}
+	want, _ := constant.Int64Val(oc.Val())
+	for _, tl := range tokenLitsIn(p, f) {
+		if tl.Role == nil {
+			if want == 0 {
+				return true
+			}
+			continue
+		}
+		if rc, ok := tl.Role.(*ssa.Const); ok && rc.Value != nil {
+			if v, exact := constant.Int64Val(constant.ToInt(rc.Value)); exact && v == want {
+				return true
+			}
+		}
+	}
+	return false
+}
+
+// firstByteGuard: the call is dominated by the true branch of a test `s[i] == c` of one byte of a string
+// against a constant (the case of a switch on the next byte); returns c.
+func firstByteGuard(c *ssa.Call) (byte, bool) {
+	cb := c.Block()
+	under := func(s *ssa.BasicBlock) bool { return s == cb || s.Dominates(cb) }
+	for _, d := range c.Parent().Blocks {
+		if d == cb || !d.Dominates(cb) || len(d.Succs) != 2 || d.Succs[0] == d.Succs[1] {
+			continue
+		}
+		ifi, ok := d.Instrs[len(d.Instrs)-1].(*ssa.If)
+		if !ok || !under(d.Succs[0]) || under(d.Succs[1]) || len(d.Succs[0].Preds) != 1 {
+			continue
+		}
+		bo, ok := ifi.Cond.(*ssa.BinOp)
+		if !ok || bo.Op != token.EQL {
+			continue
+		}
+		for _, pair := range [][2]ssa.Value{{bo.X, bo.Y}, {bo.Y, bo.X}} {
+			kc, isK := pair[1].(*ssa.Const)
+			if !isK || kc.Value == nil {
+				continue
+			}
+			isByteOfString := false
+			switch t := pair[0].(type) {
+			case *ssa.Index:
+				isByteOfString = isStringType(t.X.Type())
+			case *ssa.Lookup:
+				isByteOfString = isStringType(t.X.Type())
+			}
+			if !isByteOfString {
+				continue
+			}
+			if v, exact := constant.Int64Val(constant.ToInt(kc.Value)); exact && v >= 0 && v < 256 {
+				return byte(v), true
+			}
+		}
+	}
+	return 0, false
+}
+
 // scannerKeywords discovers the literal strings the scanner matches before ids: every call in R of
 // the stream method that wraps strings.HasPrefix ("read") with a constant or with a range element
 // of a constant list; and the regexp constants given to the method that wraps regexp.Compile.
@@ -2123,6 +2186,7 @@ func scannerKeywords(p *Prog) (*scanKeywords, error) {
 			if !ok {
 				continue
 			}
+			var counter *ssa.Phi
 			byteAtCursor := func(v ssa.Value) (string, bool) {
 				var x, idx ssa.Value
 				switch t := v.(type) {
@@ -2132,6 +2196,49 @@ func scannerKeywords(p *Prog) (*scanKeywords, error) {
 					x, idx = t.X, t.Index
 				default:
 					return "", false
+				}
+				// rest[n] with rest := buffer[cursor:] (or the stream's own rest()) and n a counter from 0
+				if ph, isPhi := idx.(*ssa.Phi); isPhi && isStringType(x.Type()) {
+					var sl *ssa.Slice
+					recv := ssa.Value(f.Params[0])
+					switch r := x.(type) {
+					case *ssa.Slice:
+						sl = r
+					case *ssa.Call:
+						if h := r.Call.StaticCallee(); h != nil && p.InModule(h) && len(h.Blocks) == 1 && len(h.Params) == 1 && len(r.Call.Args) == 1 && r.Call.Args[0] == recv {
+							if ret, ok := h.Blocks[0].Instrs[len(h.Blocks[0].Instrs)-1].(*ssa.Return); ok && len(ret.Results) == 1 {
+								sl, _ = ret.Results[0].(*ssa.Slice)
+								recv = h.Params[0]
+							}
+						}
+					}
+					if sl == nil || sl.High != nil || sl.Max != nil || sl.Low == nil {
+						return "", false
+					}
+					lx, ok1 := sl.X.(*ssa.UnOp)
+					li, ok2 := sl.Low.(*ssa.UnOp)
+					if !ok1 || !ok2 || lx.Op != token.MUL || li.Op != token.MUL {
+						return "", false
+					}
+					fx, ok1 := lx.X.(*ssa.FieldAddr)
+					fi, ok2 := li.X.(*ssa.FieldAddr)
+					if !ok1 || !ok2 || fx.X != recv || fi.X != recv {
+						return "", false
+					}
+					for _, e := range ph.Edges {
+						if kc, ok := e.(*ssa.Const); ok && kc.Value != nil && kc.Int64() == 0 {
+							continue
+						}
+						bo, ok := e.(*ssa.BinOp)
+						if !ok || bo.Op != token.ADD || bo.X != ssa.Value(ph) {
+							return "", false
+						}
+						if one, ok := bo.Y.(*ssa.Const); !ok || one.Value == nil || one.Int64() != 1 {
+							return "", false
+						}
+					}
+					counter = ph
+					return fieldOf(fi).Field, true
 				}
 				lx, ok1 := x.(*ssa.UnOp)
 				li, ok2 := idx.(*ssa.UnOp)
@@ -2208,6 +2315,14 @@ func scannerKeywords(p *Prog) (*scanKeywords, error) {
 					}
 				}
 			}
+			if counter != nil {
+				// the counter is stepped on the accepted edge
+				for _, in := range tb.Instrs {
+					if bo, ok := in.(*ssa.BinOp); ok && bo.Op == token.ADD && bo.X == ssa.Value(counter) {
+						steps = true
+					}
+				}
+			}
 			loops := false
 			for _, s2 := range tb.Succs {
 				if s2 == b || s2.Dominates(b) {
@@ -2249,6 +2364,16 @@ func scannerKeywords(p *Prog) (*scanKeywords, error) {
 				if callee == k.ReadFn {
 					arg := c.Call.Args[1]
 					if s, ok := constString(arg); ok {
+						if makesOperatorTokens(p, f) {
+							// the operator reader tries its keywords one by one as constants (a switch on the next
+							// byte, an if-chain): a byte test that guards the attempt must agree with the keyword
+							if gb, guarded := firstByteGuard(c); guarded && (len(s) == 0 || s[0] != gb) {
+								return nil, fmt.Errorf("%s: operator %q is only tried when the next byte is %q: it can never be read", p.pos(c.Pos()), s, string(rune(gb)))
+							}
+							k.Operators = append(k.Operators, s)
+							k.OperatorFn = f
+							continue
+						}
 						k.Prefixes = append(k.Prefixes, s)
 						continue
 					}
